@@ -60,6 +60,7 @@ type VerifHooks struct {
 	PageRead      func(fs *VerifStore, offset uint64, b []byte, n *VerifNode)
 	WalOpened     func(file any, db string)
 	WalIO         func(file any, kind int, b []byte)
+	WalTruncate   func(file any, size int64)
 	Replay        func(fs *VerifStore, op uint8, lsn uint64, pageID uint64, cellID uint32, redo bool)
 	LRU           func(l *LRUCache, kind int, key any, n *VerifNode)
 }
@@ -162,5 +163,11 @@ func verifReplay(fs *fileStore, e *WALEntry, redo bool) {
 func verifLRU(l *LRUCache, kind int, key any, n *btreeNode) {
 	if h := verifHooks; h != nil && h.LRU != nil {
 		h.LRU(l, kind, key, n)
+	}
+}
+
+func verifWalTruncate(file any, size int64) {
+	if h := verifHooks; h != nil && h.WalTruncate != nil {
+		h.WalTruncate(file, size)
 	}
 }
